@@ -47,6 +47,11 @@ end keep
 section unary
 variable [AddMonoid α] [DecidableEq α]
 
+theorem empty_spec (s : List Nat) :
+    (empty s : Sparse α).WF ∧ (empty s : Sparse α).shape = s ∧ ∀ i, (empty s : Sparse α).get i = 0 := by
+  refine ⟨⟨rfl, by simp [empty], by simp [empty], by simp [empty]⟩, rfl, fun i => ?_⟩
+  exact Sparse.get_of_not_mem _ i (by simp [empty])
+
 theorem ones_spec [One α] (A : Sparse α) (hA : A.WF) (h1 : (1 : α) ≠ 0) :
     (ones A).WF ∧ (ones A).shape = A.shape ∧ ∀ i, (ones A).get i = if A.get i = 0 then 0 else 1 := by
   have e : ones A = ⟨A.shape, A.subs, A.subs.map (fun _ => (1 : α))⟩ := by
@@ -168,11 +173,6 @@ theorem mul_dense_spec (A : Sparse α) (hA : A.WF) (D : Dense α) (hs : A.shape 
     rw [hv, ← hs]
     exact keepNonzero_spec A hA (fun j => A.get j * D.get j) (fun i hi => by simp [A.get_of_not_mem i hi])
 
-theorem empty_spec (s : List Nat) :
-    (empty s : Sparse α).WF ∧ (empty s : Sparse α).shape = s ∧ ∀ i, (empty s : Sparse α).get i = 0 := by
-  refine ⟨⟨rfl, by simp [empty], by simp [empty], by simp [empty]⟩, rfl, fun i => ?_⟩
-  exact Sparse.get_of_not_mem _ i (by simp [empty])
-
 theorem mul_sparse_spec [NoZeroDivisors α] (A B : Sparse α) (hA : A.WF) (hB : B.WF) (hs : A.shape = B.shape) :
     ∃ R, mul A (.sparse B) = .ok R ∧ R.WF ∧ R.shape = A.shape ∧ ∀ i, R.get i = A.get i * B.get i := by
   unfold mul
@@ -271,6 +271,8 @@ theorem mapData_get {β : Type} [Zero β] (f : α → β) (T : Dense α) (hT : T
   simp only [mapData, Dense.get, List.getD_eq_getElem?_getD, List.getElem?_map,
     List.getElem?_eq_getElem hlt, Option.map_some, Option.getD_some]
 
+theorem full_wf (S : Sparse α) : S.full.WF := by rw [Sparse.full_eq]; exact Dense.ofFn_WF _ _
+
 theorem mapData_wf {β : Type} (f : α → β) (T : Dense α) (hT : T.WF) : (mapData f T).WF := by
   simp only [mapData, Dense.WF, List.length_map]; exact hT
 
@@ -349,8 +351,6 @@ theorem sub_sparse_spec (A B : Sparse α) (hA : A.WF) (hB : B.WF) (hs : A.shape 
       have e1 : kvSum (A.subs.zip A.vals) i = A.get i := rfl
       have e2 : kvSum (B.subs.zip (B.vals.map (fun v => -1 * v))) i = (neg B).get i := rfl
       rw [e1, e2, ng i, sub_eq_add_neg]
-
-theorem full_wf (S : Sparse α) : S.full.WF := by rw [Sparse.full_eq]; exact Dense.ofFn_WF _ _
 
 theorem sub_scalar_spec (A : Sparse α) (hA : A.WF) (c : α) :
     ∃ R, sub A (.scalar c) = .ok (.dn R) ∧ R.WF ∧ R.shape = A.shape ∧
